@@ -7,7 +7,7 @@ from . import common, cons, place, universe, xt
 
 PID = "C01"
 
-PL_ALL = ["default", "ctx", "cap0", "hole", "dirtyhole", "explicit", "explicit-i8", "al64", "al2", "ba-hole", "ba-cap0", "grown", "dirtybig"]
+PL_ALL = ["default", "ctx", "cap0", "hole", "dirtyhole", "explicit", "explicit-i8", "explicit-al16", "al64", "al2", "ba-hole", "ba-cap0", "grown", "dirtybig"]
 PL_DEEP = ["ctx", "dirtyhole", "grown", "ba-hole"]
 
 
